@@ -62,11 +62,13 @@ func HarnessC15Filter(n, np, nc int) {
 		verifOverride("github.com/bmatcuk/doublestar/v4.MatchUnvalidated", verifC15Glob)
 	}
 
-	l := &Linter{}
+	l := verifLinter("", "", "")
 	for p := 0; p < np; p++ {
 		l.ignorePats = append(l.ignorePats, regexp.MustCompile("c"+strconv.Itoa(p)))
 	}
-	cfg := &Config{Paths: map[string]PathConfig{}}
+	// the configuration is built by the repository's own ParseConfig from text (no struct
+	// literals here: the harness does not depend on how Config represents its entries)
+	cfgText := ""
 	for c := 0; c < nc; c++ {
 		key := "g" + strconv.Itoa(c)
 		if native {
@@ -77,7 +79,11 @@ func HarnessC15Filter(n, np, nc int) {
 				key = "other" + strconv.Itoa(c) + "/**"
 			}
 		}
-		cfg.Paths[key] = PathConfig{Ignore: IgnorePatterns{regexp.MustCompile("g" + strconv.Itoa(c))}}
+		cfgText += "  \"" + key + "\":\n    ignore:\n      - g" + strconv.Itoa(c) + "\n"
+	}
+	cfg := &Config{}
+	if nc > 0 {
+		cfg = verifConfig("paths:\n" + cfgText)
 	}
 	errs := make([]*Error, n)
 	for e := range errs {
@@ -146,7 +152,7 @@ func verifC15Parse(b []byte) (*Workflow, []*Error) {
 
 func verifC15RepoConfig(root string) (*Config, error) {
 	if root == "/r" {
-		return &Config{Paths: map[string]PathConfig{".github/workflows/*.yml": {}}}, nil
+		return verifConfig("paths:\n  .github/workflows/*.yml:\n    ignore: []\n"), nil
 	}
 	return nil, nil
 }
@@ -193,7 +199,7 @@ func HarnessC15Cwd() {
 	verifOverride("loadRepoConfig", verifC15RepoConfig)
 	verifOverride("Parse", verifC15Parse)
 	verifOverride("github.com/bmatcuk/doublestar/v4.MatchUnvalidated", verifC15RecGlob)
-	l := &Linter{projects: NewProjects(), cwd: cwd, out: nil}
+	l := verifLinter(cwd, "", "")
 	errs, err := l.LintFile(arg, nil)
 	verifCheck(err == nil, "lint-failed")
 	verifCheck(len(errs) == 1, "diagnostic-lost")
@@ -214,7 +220,7 @@ var verifC15PathsPattern string
 
 func verifC15RepoConfigPat(root string) (*Config, error) {
 	if root == "/r" && verifC15PathsPattern != "" {
-		return &Config{Paths: map[string]PathConfig{".github/workflows/*.yml": {Ignore: IgnorePatterns{regexp.MustCompile(verifC15PathsPattern)}}}}, nil
+		return verifConfig("paths:\n  .github/workflows/*.yml:\n    ignore:\n      - '" + verifC15PathsPattern + "'\n"), nil
 	}
 	return nil, nil
 }
@@ -229,7 +235,9 @@ func HarnessC15Check() {
 		"on: [push\njobs: {\n",
 		"on: push\njobs:\n  a:\n    runs-on: ubuntu-latest\n    steps:\n      - run: echo\n      nope\n",
 	}
-	pats := []string{"undefined variable", "could not parse", "no such text"}
+	// patterns are matched against the message text only: anchors refer to the message, and text
+	// that only occurs in the printed form (position, [kind]) matches nothing
+	pats := []string{"undefined variable", "could not parse", "no such text", "^undefined variable", `\[expression\]$`, `^:[0-9]+:`, `more details$|^could not parse|key "nope"`}
 	src := srcs[verifChoose("source", len(srcs))]
 	pat := pats[verifChoose("pattern", len(pats))]
 	viaConfig := verifChoose("via", 2) == 1
@@ -243,10 +251,10 @@ func HarnessC15Check() {
 	verifOverride("findProject", verifC15FindProject)
 	verifOverride("loadRepoConfig", verifC15RepoConfigPat)
 	verifC15PathsPattern = ""
-	l0 := &Linter{projects: NewProjects(), cwd: "/r", out: nil}
+	l0 := verifLinter("/r", "", "")
 	all, err := l0.LintFile(".github/workflows/w.yml", nil)
 	verifCheck(err == nil && len(all) >= 1, "lint-failed")
-	l := &Linter{projects: NewProjects(), cwd: "/r", out: nil}
+	l := verifLinter("/r", "", "")
 	if viaConfig {
 		verifC15PathsPattern = pat
 	} else {
@@ -280,8 +288,8 @@ func HarnessC15MultiRepo() {
 	}
 	verifC10Files = map[string]string{paths[0]: wf, paths[1]: wf}
 	verifC10Cfg = map[string]*Config{
-		"/r": {Paths: map[string]PathConfig{".github/workflows/*.yml": {Ignore: IgnorePatterns{regexp.MustCompile("undefined variable")}}}},
-		"/s": {Paths: map[string]PathConfig{".github/workflows/*.yml": {Ignore: IgnorePatterns{regexp.MustCompile("is not defined in object type")}}}},
+		"/r": verifConfig("paths:\n  .github/workflows/*.yml:\n    ignore:\n      - undefined variable\n"),
+		"/s": verifConfig("paths:\n  .github/workflows/*.yml:\n    ignore:\n      - is not defined in object type\n"),
 	}
 	verifSetCwd("/")
 	verifOverride("os.ReadFile", verifC10ReadFile)
@@ -289,14 +297,14 @@ func HarnessC15MultiRepo() {
 	verifOverride("loadRepoConfig", verifC10RepoConfig)
 	single := make([]string, len(paths))
 	for k, p := range paths {
-		l := &Linter{projects: NewProjects(), cwd: "", out: nil}
+		l := verifLinter("", "", "")
 		errs, err := l.LintFile(p, nil)
 		verifCheck(err == nil, "lint-failed")
 		single[k] = verifC10Digest(errs, p)
 		verifCheckf(len(errs) == 1, "each-repository-ignores-one-of-the-two-diagnostics", verifErrTextConc(errs))
 	}
 	ord := [][]int{{0, 1}, {1, 0}}[verifChoose("order", 2)]
-	l := &Linter{projects: NewProjects(), cwd: "", out: nil}
+	l := verifLinter("", "", "")
 	if verifChoose("format", 2) == 1 {
 		// -format: the diagnostics go through the template printer (replaced by
 		// a counter here); what LintFiles returns is the same list
@@ -304,7 +312,11 @@ func HarnessC15MultiRepo() {
 		verifC15Printed = -1
 		verifOverride("(*ErrorFormatter).Print", verifC15Print)
 	}
+	if verifChoose("goroutines", 2) == 1 {
+		verifGoOrder([]int{1, 0}) // both goroutines started before either runs; second one first
+	}
 	errs, err := l.LintFiles([]string{paths[ord[0]], paths[ord[1]]}, nil)
+	verifGoOrder(nil)
 	verifCheck(err == nil, "lint-failed")
 	verifReach("linted")
 	if l.errFmt != nil {
@@ -351,4 +363,14 @@ func HarnessC15IgnoreItems() {
 	if len(pc.Ignore) == 1 {
 		verifCheckf(pc.Ignore[0].String() == it.pat, "ignore-item-is-not-the-pattern-written", pc.Ignore[0].String())
 	}
+}
+
+// verifConfig: an actionlint.yaml given as text, decoded by the repository's ParseConfig.
+func verifConfig(text string) *Config {
+	c, err := ParseConfig([]byte(text))
+	if err != nil {
+		verifCheckf(false, "harness-configuration-rejected", err.Error())
+		return &Config{}
+	}
+	return c
 }
